@@ -111,13 +111,18 @@ fn gen_text(rng: &mut Rng, kind: u64) -> String {
     }
 }
 
+/// patterns for RegexTokenizer; the second half can match the empty string (an empty match ends the stream)
+const REGEXES: &[&str] = &[r"\w+", r"[a-z]+", r"\S+", r".", r"\p{L}+|\d", r"(?i)rust|a", r"\b\w", r"^\w+",
+    r"[^ ]*", r"[a-z]*", r"\d*", r"(?:x+)?", r"[a-zA-Z0-9]*", r"\p{Lu}*", r"a*|é", r"\w*", r"(?:\p{Han}+)?", r"[^\x00-\x7f]*"];
+const EMPTY_OK_FROM: usize = 8;
+
 fn gen_tokenizer(rng: &mut Rng, i: u64) -> Tk {
     match i % 9 {
         0 => Tk::Simple,
         1 => Tk::Whitespace,
         2 => Tk::Raw,
         3 | 4 => { let a = rng.range(1, 4) as usize; Tk::Ngram(a, a + rng.range(0, 3) as usize, rng.chance(1, 3)) }
-        5 => Tk::Regex(rng.pick(&[r"\w+", r"[a-z]+", r"\S+", r"[^ ]*", r".", r"\p{L}+|\d", r"(?i)rust|a", r"\b\w", r"^\w+"]).to_string()),
+        5 => Tk::Regex(rng.pick(REGEXES).to_string()),
         6 => Tk::Facet,
         7 => Tk::Simple,
         _ => Tk::Ngram(1, 1 + rng.range(0, 2) as usize, false),
@@ -493,6 +498,56 @@ fn main() {
                 coq_reuse -= 1;
                 out.coq_case("spec", format!("tokens_spec {} {}", cps(&text_b), toks_term(&reused_b)), desc.clone(), !reused_b.is_empty());
             }
+        }
+    }
+
+
+    // ================= (v) RegexTokenizer with patterns that can match the empty string, multi-byte texts =================
+    // On the code as it is an empty match ends the stream (model: regex_chain); every emitted token must still
+    // point at its own text on character boundaries -- also after multi-byte characters the pattern does not match.
+    let n_re = if thorough { 1200 } else { 300 };
+    let mut coq_re: i64 = if thorough { 200 } else { 60 };
+    for i in 0..n_re {
+        let pat = if i % 4 == 0 { *rng.pick(REGEXES) } else { *rng.pick(&REGEXES[EMPTY_OK_FROM..]) };
+        let tk = Tk::Regex(pat.to_string());
+        // ASCII words interleaved with multi-byte characters / words, so that matches follow unmatched multi-byte text
+        let text = if i % 3 == 0 { gen_text(&mut rng, 5 + (i % 7)) } else {
+            let n = rng.range(2, 8);
+            let mut t = String::new();
+            for _ in 0..n {
+                t.push_str(*rng.pick(&["foo", "bar", "x", "xx", "a", "42", "7", "Rust", "AB", "é", "語", "日本語", "𝒳", "ß", "Ünï", "été", "мир", "🙂", "e\u{301}"]));
+                t.push_str(*rng.pick(&["", " ", " ", "é", "語", " 𝒳 ", "-", "\u{a0}", "\u{3000}"]));
+            }
+            t
+        };
+        let fls: Vec<Fl> = if i % 5 == 4 { vec![Fl::Lower] } else { vec![] };
+        let desc = json!({"what": "regex tokens", "pattern": pat, "text": text, "filters": format!("{:?}", fls)});
+        let toks = match run(&mut build(&tk, &fls), &text) { Ok(t) => t, Err(e) => { out.spec_checked(false, json!({"what": "regex analyzer panicked", "case": desc, "panic": e})); continue; } };
+        out.count("regex_empty_ok_cases", 1);
+        if !text.is_ascii() && !toks.is_empty() { out.count("regex_multibyte_with_tokens", 1); }
+        let s_ok = spans_ok(&text, &toks);
+        out.spec_checked(s_ok, json!({"what": "regex token offsets outside the text / off a boundary / positions decrease", "case": desc, "tokens": format!("{:?}", &toks[..toks.len().min(40)])}));
+        let t_ok = !fls.is_empty() || texts_ok(&text, &toks);
+        out.spec_checked(t_ok, json!({"what": "regex token text differs from the slice it points to", "case": desc, "tokens": format!("{:?}", &toks[..toks.len().min(40)])}));
+        out.spec_checked(disjoint(&toks) && toks.iter().all(|t| t.from < t.to), json!({"what": "regex tokens overlap or are empty", "case": desc}));
+        // slicing the text with the offsets (what highlighting does) must not panic: a snippet over these tokens
+        if !toks.is_empty() {
+            let mut terms = BTreeMap::new(); terms.insert(rng.pick(&toks).text.to_lowercase(), 1.0f32);
+            let max = rng.below(text.len() as u64 + 2) as usize;
+            let g = SnippetGenerator::new(terms, build(&tk, &fls), Field::from_field_id(0), max);
+            let r = guarded(|| { let s = g.snippet(&text); (s.fragment().to_string(), s.highlighted().to_vec(), s.to_html()) });
+            match r {
+                Err(e) => out.spec_checked(false, json!({"what": "snippet over regex tokens panicked", "case": desc, "max_num_chars": max, "panic": e})),
+                Ok((frag, hl, html)) => { let (dis, inside) = ranges_ok(&frag, &hl);
+                    out.spec_checked(dis && inside && text.contains(&frag) && unhtml(&html) == frag, json!({"what": "snippet over regex tokens violates the range / html predicates", "case": desc, "fragment": frag, "highlighted": format!("{:?}", hl)})); }
+            }
+        }
+        if coq_re > 0 && text.chars().count() <= 80 && toks.len() <= 80 {
+            coq_re -= 1;
+            let o = oracles(&text, &tk, &fls);
+            out.coq_case("tie", format!("otokens_eqb ({}) {}", analyze_term(&o, &tk, &fls, &text), toks_term(&toks)), desc.clone(), !toks.is_empty());
+            out.coq_case("spec", format!("tokens_spec {} {}", cps(&text), toks_term(&toks)), desc.clone(), !toks.is_empty());
+            if fls.is_empty() { out.coq_case("spec", format!("tokens_text_spec {} {}", cps(&text), toks_term(&toks)), desc.clone(), !toks.is_empty()); }
         }
     }
 
